@@ -11,7 +11,7 @@
 (***************************************************************************)
 EXTENDS Handshake, Json
 
-CONSTANTS Family,     \* "mj_basic" "mj_restricted" "mj_qerr" "ml" "sj_shape" "sj_trust" "inv" "inv_same" "inv3" "sj_keys" "inv_keys" "e2e", or
+CONSTANTS Family,     \* "mj_basic" "mj_restricted" "mj_qerr" "ml" "sj_shape" "sj_trust" "inv" "inv_same" "inv3" "sj_keys" "inv_keys" "mjv" "mlv" "sjv" "invv" "sj_pseudo" "sj_env" "inv_env" "e2e", or
                       \* "all": every product family and the end-to-end behaviours in one run (quick tier)
           Width       \* "quick" | "thorough": room versions per family, allow-list alphabet of mj_restricted
 
@@ -25,10 +25,14 @@ RVersionsThorough  == {"8", "9", "10", "11", "12"}
 \* room versions enumerated by a product family
 Vers(f) ==
     IF Width = "thorough"
-    THEN (IF f \in {"mj_restricted", "mj_qerr"} THEN RVersionsThorough ELSE VersionsThorough)
+    THEN (IF f \in {"mj_restricted", "mj_qerr"} THEN RVersionsThorough
+          ELSE IF f \in {"mjv", "mlv"} THEN AllVersions
+          ELSE IF f \in {"sjv", "invv"} THEN AllVersions \ {"org.matrix.msc4014"} ELSE VersionsThorough)
     ELSE CASE f \in {"mj_restricted", "mj_qerr"} -> RVersionsQuick
            [] f \in {"sj_trust", "inv"} -> VersionsQuick1
            [] f \in {"sj_keys", "inv_keys"} -> KVersionsQuick
+           [] f \in {"mjv", "mlv"} -> AllVersions
+           [] f \in {"sjv", "invv"} -> AllVersions \ {"org.matrix.msc4014"}    \* there: sj_pseudo, inv3
            [] OTHER -> VersionsQuick
 
 Fam(s, f) == [s EXCEPT !.fam = f]
@@ -39,10 +43,11 @@ TB   == {"ok", "err", "nilev", "nilstate", "wrongtype", "nocreate"}
 \* "revoked": its expired_ts lies before it.  Neither is a valid signature, in any room version: the handlers
 \* countersign, so they apply the strict validity rule everywhere (not the room version's lenient one of v1-v4).
 Sig6 == {"valid", "none", "wrongkey", "other", "tampered", "expired", "revoked"}
-KeyClasses == {"valid", "expired", "revoked"}
+KeyClasses == {"valid", "expired", "revoked", "vu_eq", "vu_p1", "ex_eq", "ex_m1"}
+MultiSigs == {"two_keys", "plus_other", "presigned", "presigned_bad"}
 Via4 == {"none", "local", "remote", "invalid"}
 
-RoomClasses == {"nonres", "info_err", "nouser", "empty", "listedB", "listed", "listed2", "othertype", "badid"}
+RoomClasses == {"nonres", "info_err", "info_nil", "nouser", "empty", "listedB", "listed", "listed2", "othertype", "badid"}
 AllowLists ==
     IF Width = "thorough"
     THEN {<<>>} \cup {<<a>> : a \in RoomClasses} \cup {<<a, b>> : a \in RoomClasses, b \in RoomClasses}
@@ -56,8 +61,10 @@ Ev(t, m, ss, sk, rm, via, sig) ==
 
 \* ---- make_join: every request parameter x membership x join rule x template builder --------
 InitMJBasic ==
-    \E v \in Vers("mj_basic"), o \in {"J", "X"}, u \in {"J", "X", "R"}, vs \in {"has", "lacks", "none"},
-       ir \in BOOLEAN, jr \in {"none", "public", "invite", "knock"}, mem \in Mem5, tb \in TB :
+    \E v \in Vers("mj_basic"), o \in {"J", "X"}, u \in {"J", "X", "R"}, vs \in {"has", "lacks", "none", "empty"},
+       ir \in BOOLEAN, jr \in {"none", "public", "invite", "knock"}, mem \in Mem5 :
+    \* quick: the template builder's behaviours are crossed with requests that pass the version gate only
+    \E tb \in (IF Width = "thorough" \/ vs = "has" THEN TB ELSE {"ok"}) :
         /\ sc = [Fam(Base(v), "mj_basic") EXCEPT !.inRoom = ir, !.jr = jr, !.mem = mem, !.tb = tb]
         /\ net = MJReq(o, u, vs) /\ phase = "mjreq"
 
@@ -73,7 +80,7 @@ InitMJRestricted ==
 
 \* ---- make_join: failing queriers --------
 InitMJQerr ==
-    \E v \in Vers("mj_qerr"), q \in {"jr_err", "pending_err", "pl_missing"}, jr \in {"public", "restricted"},
+    \E v \in Vers("mj_qerr"), q \in {"jr_err", "pending_err", "pl_missing", "pl_err", "create_err", "create_nil"}, jr \in {"public", "restricted"},
        pend \in BOOLEAN, mem \in {"none", "invite"}, al \in {<<"listed">>, <<"nonres">>} :
         /\ RestrictedSupported(v)
         /\ sc = [Fam(Base(v), "mj_qerr") EXCEPT !.jr = jr, !.mem = mem, !.pending = pend, !.allow = al, !.qerr = q]
@@ -122,8 +129,11 @@ InitInvKeys ==
 \*  ss: the inviter's server - "J" a remote server, "R" the invited user's own server (the event must still carry
 \*  a valid signature of that server: the local name proves nothing about a request that came over federation)
 InitInvFrom(fam, ss) ==
-    \E v \in Vers("inv"), rv \in {"known", "unknown"}, t \in {"member", "other"}, m \in {"invite", "join", "leave", "missing"},
-       sk \in {"invitee", "otherlocal", "sender", "absent"}, rm \in {"main", "other"}, sig \in Sig6,
+    \* quick: for an inviter on the invited user's server the event shapes are a sample (the full product is in "inv")
+    LET few == Width = "quick" /\ ss = "R" IN
+    \E v \in Vers("inv"), rv \in (IF few THEN {"known"} ELSE {"known", "unknown"}), t \in (IF few THEN {"member"} ELSE {"member", "other"}),
+       m \in (IF few THEN {"invite", "join"} ELSE {"invite", "join", "leave", "missing"}),
+       sk \in (IF few THEN {"invitee", "otherlocal"} ELSE {"invitee", "otherlocal", "sender", "absent"}), rm \in {"main", "other"}, sig \in Sig6,
        kn \in BOOLEAN, uq \in {"ok", "err", "nil"} :
     \E mem \in (IF kn THEN Mem5 ELSE {"none"}) :
     \* quick: the way the stripped state arrives is varied for every event shape, with a sender the server can check
@@ -135,13 +145,79 @@ InitInvFrom(fam, ss) ==
 InitInv     == InitInvFrom("inv", "J")
 InitInvSame == InitInvFrom("inv_same", "R")
 
-\* ---- invite, v3 endpoint (pseudo-ID rooms): shares the common checks of the invite handler --------
+\* ---- invite, v3 endpoint (pseudo-ID rooms; any room version can be named): shares the common checks of the invite handler ----
 InitInv3 ==
-    \E rv \in {"known", "unknown"}, rm \in {"main", "other"}, kn \in BOOLEAN, st \in {"none", "given"} :
+    \E v \in {"org.matrix.msc4014", "12", "10"}, rv \in {"known", "unknown"}, rm \in {"main", "other"}, kn \in BOOLEAN,
+       st \in {"none", "empty", "given"}, env \in {"ok", "rq_err", "memq_err"} :
     \E mem \in (IF kn THEN Mem5 ELSE {"none"}) :
-        /\ sc = [Fam(Base("org.matrix.msc4014"), "inv3") EXCEPT !.rv = rv, !.known = kn, !.mem = mem, !.stripped = st]
+        /\ sc = [Fam(Base(v), "inv3") EXCEPT !.rv = rv, !.known = kn, !.mem = mem, !.stripped = st, !.env = env]
         /\ net = [k |-> "inv3req", room |-> "main", proom |-> rm]
         /\ phase = "inv3req"
+
+(***************************************************************************)
+(* One small family per handler over EVERY registered room version (the    *)
+(* per-version traits: event format, restricted joins, knocking, what the  *)
+(* signatures cover, domainless rooms, privileged creators), with the      *)
+(* coincidences (requesting server = resident server; names that extend    *)
+(* J's name: N = "j.test.evil", M = "evil-j.test"), multiple signatures,   *)
+(* content that must have no effect, empty vs absent lists.                *)
+(***************************************************************************)
+\* make_join: version gate x join rule (also the ones the version does not know) x membership x who asks
+InitMJV ==
+    \E v \in Vers("mjv"), vs \in {"has", "lacks", "none", "empty"},
+       jr \in {"public", "invite", "knock", "restricted", "knock_restricted"}, mem \in {"none", "invite", "ban"},
+       ou \in {<<"J", "J">>, <<"R", "R">>, <<"N", "J">>, <<"M", "J">>} :
+        /\ sc = [Fam(Base(v), "mjv") EXCEPT !.jr = jr, !.mem = mem, !.pending = (mem = "invite"), !.allow = <<"listed">>]
+        /\ net = MJReq(ou[1], ou[2], vs) /\ phase = "mjreq"
+
+InitMLV ==
+    \E v \in Vers("mlv"), mem \in {"join", "invite", "ban", "none"},
+       ou \in {<<"J", "J">>, <<"R", "R">>, <<"N", "J">>, <<"M", "J">>, <<"J", "X">>} :
+        /\ sc = [Fam(Base(v), "mlv") EXCEPT !.mem = mem]
+        /\ net = MLReq(ou[1], ou[2]) /\ phase = "mlreq"
+
+InitSJV ==
+    \E v \in Vers("sjv"), sig \in {"valid", "none", "tampered"} \cup MultiSigs, via \in {"none", "local", "remote"},
+       os \in {<<"J", "J">>, <<"R", "R">>, <<"N", "J">>, <<"M", "J">>}, t \in {"member", "other"} :
+    \E x \in (IF sig = "valid" THEN {"none", "tpi", "unknown", "unsigned"} ELSE {"none"}) :
+        /\ ~(os[2] = "R" /\ sig \in {"presigned", "presigned_bad"})
+        /\ sc = [Fam(Base(v), "sjv") EXCEPT !.extra = x]
+        /\ net = [k |-> "sjreq", origin |-> os[1], room |-> "main", eid |-> "match",
+                  ev |-> Ev(t, "join", os[2], "sender", "main", via, sig)]
+        /\ phase = "sjreq"
+
+InitInvV ==
+    \E v \in Vers("invv"), sig \in {"valid", "none", "tampered"} \cup MultiSigs, ss \in {"J", "R"}, m \in {"invite", "join"},
+       km \in {<<FALSE, "none">>, <<TRUE, "join">>, <<TRUE, "leave">>}, st \in {"none", "empty", "given"} :
+    \E x \in (IF sig = "valid" THEN {"none", "unknown", "unsigned"} ELSE {"none"}) :
+        /\ ~(ss = "R" /\ sig \in {"presigned", "presigned_bad"})
+        /\ sc = [Fam(Base(v), "invv") EXCEPT !.known = km[1], !.mem = km[2], !.stripped = st, !.extra = x]
+        /\ net = [k |-> "invreq", room |-> "main", ev |-> Ev("member", m, ss, "invitee", "main", "none", sig)]
+        /\ phase = "invreq"
+
+\* ---- send_join in a pseudo-ID room: the mapping, the room key's signature, who asks ----
+InitSJPseudo ==
+    \E map \in {"ok", "missing", "unsigned", "wrongkey", "other"}, sig \in {"valid", "none", "tampered"}, o \in {"J", "X"}, ss \in {"J", "X"},
+       mem \in {"none", "join", "ban"}, eid \in {"match", "other"}, m \in {"join", "leave"}, uq \in {"ok", "err", "nil"} :
+        /\ sc = [Fam(Base("org.matrix.msc4014"), "sj_pseudo") EXCEPT !.mem = mem, !.map = map, !.uq = uq]
+        /\ net = [k |-> "sjreq", origin |-> o, room |-> "main", eid |-> eid, ev |-> Ev("member", m, ss, "sender", "main", "none", sig)]
+        /\ phase = "sjreq"
+
+\* ---- a failing verifier / membership querier / room querier ----
+InitSJEnv ==
+    \E v \in Vers("sj_shape"), env \in {"kr_err", "memq_err"}, sig \in {"valid", "none"}, mem \in {"none", "join", "ban"} :
+        /\ sc = [Fam(Base(v), "sj_env") EXCEPT !.mem = mem, !.env = env]
+        /\ net = [k |-> "sjreq", origin |-> "J", room |-> "main", eid |-> "match",
+                  ev |-> Ev("member", "join", "J", "sender", "main", "none", sig)]
+        /\ phase = "sjreq"
+
+InitInvEnv ==
+    \E v \in Vers("sj_shape"), env \in {"kr_err", "memq_err", "rq_err"}, sig \in {"valid", "none"}, kn \in BOOLEAN,
+       st \in {"none", "empty", "given"} :
+    \E mem \in (IF kn THEN {"none", "join"} ELSE {"none"}) :
+        /\ sc = [Fam(Base(v), "inv_env") EXCEPT !.known = kn, !.mem = mem, !.env = env, !.stripped = st]
+        /\ net = [k |-> "invreq", room |-> "main", ev |-> Ev("member", "invite", "J", "invitee", "main", "none", sig)]
+        /\ phase = "invreq"
 
 Is(f) == Family = f \/ Family = "all"
 
@@ -159,11 +235,18 @@ GInit ==
           \/ Is("inv3") /\ InitInv3
           \/ Is("sj_keys") /\ InitSJKeys
           \/ Is("inv_keys") /\ InitInvKeys
+          \/ Is("mjv") /\ InitMJV
+          \/ Is("mlv") /\ InitMLV
+          \/ Is("sjv") /\ InitSJV
+          \/ Is("invv") /\ InitInvV
+          \/ Is("sj_pseudo") /\ InitSJPseudo
+          \/ Is("sj_env") /\ InitSJEnv
+          \/ Is("inv_env") /\ InitInvEnv
 
 GSpec == GInit /\ [][Next]_vars
 
 \* one record per finished behaviour
 Emit ==
-    phase = "done" =>
+    Final =>
         PrintT(ToJson([fam |-> sc.fam, flow |-> flow, sc |-> sc, hist |-> hist, pj |-> pj]))
 =============================================================================
